@@ -81,6 +81,11 @@ func (man *chunkManager) OnChunkInputRecovered(chunk base.LogChunk) {
 	man.operator.OnChunkRecovered(chunk)
 }
 
+// OnChunkFileSkipped accounts for a chunk file left in the queue dir without being queued (too many files at start)
+func (man *chunkManager) OnChunkFileSkipped(chunk base.LogChunk) {
+	man.operator.OnChunkRecovered(chunk)
+}
+
 func (man *chunkManager) OnChunkConsumed(chunk base.LogChunk) {
 	man.operator.RemoveChunk(chunk)
 	man.metrics.pendingChunks.Dec()
